@@ -28,7 +28,7 @@ PROPS = {
         runs=[
             dict(harness="bp", name="ctx",
                  args=lambda tier, seed, casedir, coq: ["ctx", "--maxlen", str(q(tier, 6, 8))]),
-            bp_sys("C18", 40, 600),
+            bp_sys("C18", 120, 1200),
         ],
         rule="ctx: every contributor pattern of length 1..6 (thorough 8) over 3 contexts through the real allSameContext/parentSpans "
              "(exhaustive; non-trivial = more than one distinct context); sys: runs of the real processor with 2-5 concurrent callers "
@@ -248,6 +248,8 @@ PROPS = {
              "indep: 2-8 producer/consumer pairs with different options and histories (every other case: 2-4 streams of one signal sharing a vocabulary of one or two names/keys/values in large tables) "
              "run (a) concurrently in free goroutines and (b) three times under a cooperative scheduler — one goroutine at a time, hand-over decided by the PRNG at every allocator call of the producer, "
              "i.e. inside the encoders' loops — each stream's decoded output and the memory its consumer reports after every batch compared with the same stream run alone; all consumers of a case are built from one set of option values; "
+             "the consumer of a stream follows its producer in one of three ways (alternating; lagging behind a queue of 1..n messages; in its own goroutine fed through a channel) and the decoded stream must be the same in all; "
+             "every stream's produce/consume schedule is run through the message-ownership model (Indep/Alias.v: messages in flight are values) and what the real consumer decoded at each step must be the message the model reads (alias_mismatch); "
              "genssa also lists option constructors that capture (or pass to another option constructor) reference-like state they created themselves (must be none)",
         trusted_base=["data-race freedom is outside the model (Go memory model); the go/ssa extractor", "instances share no state by construction (each NewProducer/NewConsumer builds its own builders, allocators, maps)"],
         assumptions=["race-detector runs are supporting evidence in the thorough tier only"],
